@@ -75,10 +75,19 @@ def make_input(net, perm=None):
         band = 0 if len(cov) == 3 else 2
         obs.append("<obs>\n<vector> <from>%s</from> <to>%s</to> <dx>%.4f</dx> <dy>%.4f</dy> <dz>%.4f</dz> </vector>\n<cov-mat> <dim>3</dim> <band>%d</band> %s </cov-mat>\n</obs>" % (
             ids[a - 1], ids[b - 1], d[0] + nz, d[1] - nz, d[2] + 2 * nz, band, " ".join("<flt>%s</flt>" % v for v in cov)))
+    idh = net.get("idh", 0)
+    fdh, tdh = (1.55, 1.20) if idh else (0.0, 0.0)
+
+    def raised(i, dh):
+        """point i moved by dh along its ellipsoidal normal"""
+        d = neu2xyz(blh[i - 1][0], blh[i - 1][1], 0.0, 0.0, dh)
+        return tuple(xyz[i - 1][j] + d[j] for j in range(3))
+    dhx = "<from-dh>%.2f</from-dh> <to-dh>%.2f</to-dh> " % (fdh, tdh) if idh else ""
     for (a, b) in net["dists"]:
         k += 1
         nz = 0.0 if net["noise"] == 0 else ((k * (net["noise"] + 2)) % 7 - 3) / 1000.0
-        obs.append("<obs>\n<distance> <from>%s</from> <to>%s</to> <val>%.8f</val> <stdev>3</stdev> </distance>\n</obs>" % (ids[a - 1], ids[b - 1], math.dist(xyz[a - 1], xyz[b - 1]) + nz))
+        obs.append("<obs>\n<distance> <from>%s</from> <to>%s</to> <val>%.8f</val> <stdev>3</stdev> %s</distance>\n</obs>" % (
+            ids[a - 1], ids[b - 1], math.dist(raised(a, fdh), raised(b, tdh)) + nz, dhx))
     for a in net["heights"]:
         k += 1
         nz = 0.0 if net["noise"] == 0 else ((k * (net["noise"] + 2)) % 7 - 3) / 1000.0
@@ -97,8 +106,12 @@ def make_input(net, perm=None):
     for (a, b) in net.get("zeniths", []):
         k += 1
         nz = 0.0 if net["noise"] == 0 else ((k * (net["noise"] + 2)) % 7 - 3) * 1e-4
-        n_, e_, u_ = local(a, b)
-        obs.append("<obs>\n<zenith> <from>%s</from> <to>%s</to> <val>%.10f</val> <stdev>5</stdev> </zenith>\n</obs>" % (ids[a - 1], ids[b - 1], math.atan2(math.hypot(n_, e_), u_) * R2G + nz))
+        pa, pb = raised(a, fdh), raised(b, tdh)
+        ba, la = blh[a - 1][0], blh[a - 1][1]
+        d = [pb[j] - pa[j] for j in range(3)]
+        up = neu2xyz(ba, la, 0.0, 0.0, 1.0)
+        cz = sum(d[j] * up[j] for j in range(3)) / math.sqrt(sum(v * v for v in d))
+        obs.append("<obs>\n<zenith> <from>%s</from> <to>%s</to> <val>%.10f</val> <stdev>5</stdev> %s</zenith>\n</obs>" % (ids[a - 1], ids[b - 1], math.acos(cz) * R2G + nz, dhx))
     for (a, l_, r_) in net.get("angles", []):
         k += 1
         nz = 0.0 if net["noise"] == 0 else ((k * (net["noise"] + 2)) % 7 - 3) * 1e-4
